@@ -123,7 +123,7 @@ def mk_step(ndet, nstored, shards=1, aw_zero=False, lite=False, fork=False, maha
         vm.assume(z3.ULT(max_idle.e, 2 ** 40))
         hist = 2
         opts = Cell(sort_options(P, vm, ents, max_idle, history_length=usize(hist)), 'opts')
-        thr = grid_f32(vm, 'iou_threshold', [0.25] if lite else [0.25, 0.5])
+        thr = grid_f32(vm, 'iou_threshold', [0.25] if lite else [0.125, 0.25, 0.5])
         method = variant(P, 'PositionalMetricType', 'Mahalanobis') if maha else variant(P, 'PositionalMetricType', 'IoU', thr)
         if maha:
             thr = f32(1.0)    # MAHALANOBIS_NEW_TRACK_THRESHOLD: the documented new-track threshold of the Mahalanobis mode
